@@ -171,9 +171,11 @@ static carquet_status_t flush_current_page(carquet_column_writer_internal_t* wri
         return status;
     }
 
-    /* Update statistics */
-    writer->total_uncompressed_size += uncompressed_size;
-    writer->total_compressed_size += compressed_size;
+    /* Update statistics. The chunk totals in the file metadata count the
+     * page headers as well as the page bodies. */
+    size_t header_size = page_size - (size_t)compressed_size;
+    writer->total_uncompressed_size += (int64_t)header_size + uncompressed_size;
+    writer->total_compressed_size += (int64_t)header_size + compressed_size;
     writer->num_pages++;
 
     /* Reset page writer for next page */
